@@ -459,7 +459,8 @@ def sparse_rows(ctx, n, sym, move=None, lo=50, hi=200, first_price=100.0, name='
             if move is not None:
                 cond = cond & (h - l < move)
                 if i in gaps:
-                    cond = cond & (o - prev < move) & (prev - o < move)
+                    # the minute as simulated starts at the previous close: its whole range (gap included) stays below `move`
+                    cond = cond & (o - prev < move) & (prev - o < move) & (h - prev < move) & (prev - l < move)
             ctx.constrain(cond)
             rows.append([ts, o, c, h, l, 10.0])
             prev = c
